@@ -44,7 +44,7 @@ func storedHash(kind, pw string) (string, bool) {
 	case "sha":
 		d := sha1.Sum([]byte(pw))
 		h = "{SHA}" + base64.StdEncoding.EncodeToString(d[:])
-	case "bc", "by":
+	case "bc", "by", "bb":
 		b, err := bcrypt.GenerateFromPassword([]byte(pw), bcrypt.MinCost)
 		if err != nil {
 			return "", false
@@ -53,6 +53,14 @@ func storedHash(kind, pw string) (string, bool) {
 		if kind == "by" {
 			h = "$2y$" + h[4:]
 		}
+		if kind == "bb" {
+			h = "$2b$" + h[4:]
+		}
+	case "crypt": // a traditional DES crypt(3) entry (13 characters): not a format CheckSecret supports
+		if pw != "Password" {
+			return "", false
+		}
+		h = "rqXexS6ZhobKA"
 	case "apr":
 		h = string(auth.MD5Crypt([]byte(pw), []byte(saltOf(kind, pw)), []byte("$apr1$")))
 	case "md5":
@@ -108,11 +116,13 @@ func execBasic(f []string) string {
 	}
 	hdr := bfe_http.Header{}
 	if f[2] != "n" {
-		h, ok := unhex(f[2])
-		if !ok {
-			return "bad-op"
+		for _, one := range strings.Split(f[2], "&") { // several Authorization header lines: the first one counts
+			h, ok := unhex(one)
+			if !ok {
+				return "bad-op"
+			}
+			hdr["Authorization"] = append(hdr["Authorization"], h)
 		}
-		hdr["Authorization"] = []string{h}
 	}
 	req, _ := newReq("www.example.org", "/", "10.1.2.3:4567", hdr)
 	if basicMod == nil {
@@ -121,6 +131,14 @@ func execBasic(f []string) string {
 	prod := product
 	if f[0] == "0" {
 		prod = "other"
+	}
+	switch histMode {
+	case "load":
+		accBasic[prod] = rules
+		return "parsed"
+	case "req":
+		req.Route.Product = prod
+		return render(basicMod.Run(req))
 	}
 	ret, resp, err := basicMod.Handle(prod, rules, req)
 	if err != nil {
@@ -134,7 +152,7 @@ func execBasic(f []string) string {
 var (
 	bUsers = []string{"alice", "bob", "carol", "", "a:b", "Alice", "al\xc3\xafce"}
 	bPws   = []string{"123456", "open sesame", "p:w", "", "p\xc3\xa4ss", "x", "hunter2", ":", "a:b:c"}
-	bKinds = []string{"sha", "bc", "by", "apr", "md5", "plain"}
+	bKinds = []string{"sha", "bc", "by", "bb", "apr", "md5", "plain", "crypt"}
 	bRealm = []string{"Restricted", "example_product", "", "r 1", "caf\xc3\xa9", "tab\there"}
 	// realms that cannot be put into a quoted-string as they are
 	bRealmDirty = []string{"a\"b", "a\\b", "x\r\nX-Injected: 1", "\"", "end\\", "say \"hi\" \\ bye"}
@@ -165,6 +183,9 @@ func genBasicRules(r *vh.Rand) (string, [][3]string) {
 			}
 			if k == "plain" {
 				pw = r.Pick("123456", "hunter2", "x")
+			}
+			if k == "crypt" {
+				pw = "Password"
 			}
 			ents = append(ents, [3]string{u, k, pw})
 			us = append(us, hx(u)+":"+k+":"+hx(pw))
